@@ -544,14 +544,16 @@ def r15_11(ctx):
             if isinstance(c.args[0], ast.Constant) or (isinstance(c.args[0], ast.BinOp) and isinstance(c.args[0].op, ast.Mult)):
                 continue  # new text (a new line, padding), not a rebuilt segment
             n += 1
-            cur, child = m.parent_of.get(c), c
+            st_ = c
+            while not isinstance(st_, ast.stmt):
+                st_ = m.parent_of[st_]
+            gf = cfgmod.build(f.node)
             excl = False
-            while cur is not None and cur is not f.node:
-                if isinstance(cur, ast.If) and any(child is b or child in list(ast.walk(b)) for b in cur.body):
-                    for a, tv in canon_test(cur.test, True):
+            for nid in gf.nodes_of(st_):
+                for t_, v_ in gf.branch_facts(nid):
+                    for a, tv in canon_test(t_, v_):
                         if a.endswith(".is_control") and tv is False:
                             excl = True
-                child, cur = cur, m.parent_of.get(cur)
             ctx.check(excl, f.fq, short(c), f"{m.relpath}:{c.lineno}", "rebuilt only for non-control segments", f"`{short(c)}` rebuilds a segment without the is_control flag and no enclosing test excludes control segments")
     ctx.floor(n, 8, "segment reconstructions in Segment")
 
